@@ -24,7 +24,6 @@
    With LYD_VALIDATE_PRESENT an EMPTY tree is not validated at all (no module has data): validate_all sch [] = Ok ([], []).
 
    Deviations of libyang from the full statements (each with a witness below; all are listed findings):
-     dflt-nested-case-leftover  defaults of a default case nested in a case whose last explicit node was freed survive
      dflt-leaflist-partial      one of several default leaf-list instances freed: not restored
      vdiff-np-container         the auto-deletion of an (empty) default NP container is not in the change list
      wd-leaflist-partial-default  trim mode drops an explicit leaf-list instance equal to ONE of the default values *)
@@ -37,8 +36,7 @@ Local Open Scope N_scope.
 (* Validating a tree that is in normal form changes nothing and reports an EMPTY change list (not even the internal
    sequence of lyd_val_diff_add calls holds an entry): if validation of f gave g and g is the normal form, then a second
    validation of g, if it answers, answers g with no change.
-   Partial: (1) hypothesis normalb g - it FAILS for the two deviations dflt-nested-case-leftover / dflt-leaflist-partial
-   (witnesses below); the correspondence run evaluates it on every tree libyang produces and reports a tree that is not
+   Partial: (1) hypothesis normalb g - it FAILS for the deviation dflt-leaflist-partial (witness below); the correspondence run evaluates it on every tree libyang produces and reports a tree that is not
    normal; C07_implicit_exact_partial proves it for freshly parsed input. (2) That the second validation does not end in
    an error (mandatory / min-elements / duplicate checks pass again, fuel) is not proved here; the correspondence run and
    the API oracle validate-idem observe it. *)
@@ -48,29 +46,6 @@ Theorem C07_validate_idempotent_partial : forall sch f g d,
   forall g' d', validate_all sch g = Ok (g', d') -> g' = g /\ d' = [].
 Proof. intros sch f g d Hk _ Hn g' d' H. exact (validate_normal_fixpoint sch g g' d' Hk Hn H). Qed.
 Print Assumptions C07_validate_idempotent_partial.
-
-(* The full statement (every canonical tree reachable through the API) is refuted by the model, as by libyang:
-   schema  choice ch { case a { leaf e; leaf d {default 1}; choice n { default n1; case n1 { leaf y {default 2} } } }
-                       case b { leaf z } }  leaf w;
-   <e>q</e><w>w</w> is validated (normal form e, d, y, w), then e is freed: a canonical tree with consistent flags.
-   Validation answers the same tree - d and y stay although no case of ch is in use (not the normal form of the explicit
-   content w) - and its change list is NOT empty: d is auto-deleted and created again. (In libyang the two entries cancel in
-   the diff; when the node is a non-presence container building the diff fails: finding vdiff-np-recreate.) *)
-Theorem C07_validate_idempotent_refuted :
-  exists sch f0 g0 f,
-    schema_okb sch = true /\ chc_okb sch = true /\
-    (exists d0, validate_all sch f0 = Ok (g0, d0)) /\ normalb sch g0 = true /\
-    Canon sch f /\ np_flagsb sch f = true /\ flag_soundb sch f = true /\
-    (exists d, validate_all sch f = Ok (f, d) /\ d <> []) /\
-    normalb sch f = false.
-Proof.
-  exists w1_sch, w1_parsed, w1_valid, w1_freed.
-  destruct w1_facts as [H1 [H2 [H3 [H4 [H5 [H6 [H7 [H8 [H9 _]]]]]]]]].
-  apply (proj1 (canonb_spec _ _ _)) in H5.
-  split; [exact H1|]. split; [exact H2|]. split; [exact H3|]. split; [exact H4|]. split; [exact H5|].
-  split; [exact H6|]. split; [exact H7|]. split; [exact H8|exact H9].
-Qed.
-Print Assumptions C07_validate_idempotent_refuted.
 
 (* ------------------------------------------------------------------------------------------- *)
 (* the implicit nodes are exact                                                                  *)
@@ -98,22 +73,26 @@ Proof.
 Qed.
 Print Assumptions C07_validate_idempotent_fresh.
 
-(* refuted in general, witness 1 (dflt-nested-case-leftover): the tree above after freeing e validates to itself; its
-   explicit content is the single leaf w, yet the defaults d (case a) and y (case a / n1) are there *)
-Theorem C07_implicit_exact_refuted_nested_case :
-  exists sch f d,
+(* regression case of the former finding dflt-nested-case-leftover (libyang 357db45; lyd_validate_autodel_case_dflt now
+   walks up over enclosing default cases):
+     choice ch { case a { leaf e; leaf d {default 1}; choice n { default n1; case n1 { leaf y {default 2} } } }
+                 case b { leaf z } }  leaf w;
+   <e>q</e><w>w</w> is validated (normal form e, d, y, w), then e is freed. Validation now removes the left-over defaults
+   d and y: the result is w alone, the normal form of the explicit content, and a fixpoint with an empty change list. *)
+Theorem C07_nested_case_regression :
+  exists sch f g,
     schema_okb sch = true /\ chc_okb sch = true /\ Canon sch f /\ np_flagsb sch f = true /\ flag_soundb sch f = true /\
-    validate_all sch f = Ok (f, d) /\ normalb sch f = false /\ strip f = [DN 4 [119] false [] []].
+    (exists d, validate_all sch f = Ok (g, d)) /\ normalb sch g = true /\ strip f = g /\ validate_all sch g = Ok (g, []).
 Proof.
-  destruct w1_facts as [H1 [H2 [_ [_ [H5 [H6 [H7 [[d [H8 _]] [H9 H10]]]]]]]]].
+  destruct w1_facts as [H1 [H2 [_ [_ [H5 [H6 [H7 [H8 [H9 [H10 H11]]]]]]]]]].
   apply (proj1 (canonb_spec _ _ _)) in H5.
-  exists w1_sch, w1_freed, d.
+  exists w1_sch, w1_freed, w1_after.
   split; [exact H1|]. split; [exact H2|]. split; [exact H5|]. split; [exact H6|]. split; [exact H7|].
-  split; [exact H8|]. split; [exact H9|exact H10].
+  split; [exact H8|]. split; [exact H9|]. split; [exact H10|exact H11].
 Qed.
-Print Assumptions C07_implicit_exact_refuted_nested_case.
+Print Assumptions C07_nested_case_regression.
 
-(* refuted in general, witness 2 (dflt-leaflist-partial): leaf-list ll { default x; default y } leaf z; <z>q</z> is
+(* refuted in general (dflt-leaflist-partial): leaf-list ll { default x; default y } leaf z; <z>q</z> is
    validated (ll = x, y default), the instance x is freed; validation leaves ll = y (default-flagged) and reports no change *)
 Theorem C07_implicit_exact_refuted_leaflist :
   exists sch f,
